@@ -403,6 +403,16 @@ def eq_hash(ctx, chains, vals):
         if va == vb:
             ctx.fail({"chain": buckets[a][0][0], "chain2": buckets[b][0][0]},
                      "filled grids differing in underlying grid or vacancy set compare ==")
+    # a filled grid against plain grids: never == a grid whose site set differs (in either operand order)
+    from bloqade.geometry.dialects.grid import Grid
+    for e, v in fs[:400]:
+        u = underlying(v)
+        plain = Grid(tuple(u.x_spacing), tuple(u.y_spacing), u.x_init, u.y_init)
+        n_pairs += 1
+        if set(v.positions) != set(plain.positions) and (v == plain or plain == v):
+            ctx.fail({"chain": e}, "a filled grid with vacant sites compares == to the plain grid it was made from")
+        elif (v == plain) != (plain == v):
+            ctx.fail({"chain": e}, "== between a filled grid and a plain grid depends on the operand order")
     ctx.count("eq_pairs", n_pairs)
     ctx.count("eq_buckets_multi", sum(1 for m in buckets.values() if len(m) > 1))
 
